@@ -327,7 +327,7 @@ func (x *c03) loopbackCases() {
 			}
 		}
 		textAt := -1
-		if kind == "ws" && i%8 == 2 && len(sizes) > 0 {
+		if kind == "ws" && i%8 == 3 && len(sizes) > 0 {
 			textAt = r.Intn(len(sizes))
 			sent = nil
 		}
